@@ -108,8 +108,13 @@ impl World {
     }
 }
 
+const CUTOFF: usize = 120;
+
 #[derive(Clone)]
 struct MockResolver {
+    /// number of lookups served; past CUTOFF every lookup fails, so that a dial whose lookups are NOT bounded by
+    /// the code still ends (the trace then shows far more than 32 lookups)
+    served: Arc<Mutex<usize>>,
     zone: Arc<Vec<Value>>,
     log: Log,
     world: Arc<World>,
@@ -120,7 +125,12 @@ impl MockResolver {
         let bare = name.strip_prefix("_dnsaddr.").unwrap_or(&name).to_string();
         let idx = host_idx(&bare);
         let qname = Name::from_str(&format!("{}.", name.trim_end_matches('.'))).unwrap_or_else(|_| Name::root());
-        let entry = self.zone.iter().find(|e| e["n"].as_i64() == Some(idx) && e["t"].as_str() == Some(t));
+        let n_served = {
+            let mut g = self.served.lock().unwrap();
+            *g += 1;
+            *g
+        };
+        let entry = if n_served > CUTOFF { None } else { self.zone.iter().find(|e| e["n"].as_i64() == Some(idx) && e["t"].as_str() == Some(t)) };
         let mut ips = vec![];
         let mut txts = vec![];
         let res = match entry {
@@ -246,7 +256,7 @@ fn run(out: &mut Out, sched: &Value, w: &Arc<World>) {
     let log: Log = Arc::new(Mutex::new(vec![]));
     let zone: Vec<Value> = sched["zone"].as_array().cloned().unwrap_or_default();
     let outcomes: Vec<String> = sched["inner"].as_array().map(|l| l.iter().map(|x| x.as_str().unwrap().to_string()).collect()).unwrap_or_else(|| vec!["failed".into()]);
-    let resolver = MockResolver { zone: Arc::new(zone), log: log.clone(), world: w.clone() };
+    let resolver = MockResolver { served: Arc::new(Mutex::new(0)), zone: Arc::new(zone), log: log.clone(), world: w.clone() };
     let inner = Recorder { log: log.clone(), world: w.clone(), outcomes, calls: 0 };
     let mut t = libp2p_dns::verif::with_resolver(inner, resolver);
     let addr = w.addr(&sched["dial"]);
@@ -321,12 +331,57 @@ fn stress() -> Vec<Value> {
         v.push(json!({"dial": [[kind, 0], ["tcp", 1]], "zone": [{"n": 0, "t": t, "k": "err"}], "inner": ["ok"]}));
         v.push(json!({"dial": [[kind, 0], ["tcp", 1]], "zone": [], "inner": ["ok"]}));
     }
+    // /dnsaddr cycles through host names without any address record (nothing is ever dialed, so only the lookup
+    // bound ends the dial); k /dns names, j /dns4 names and i /dns6 names per round: the lookup counter passes
+    // through every residue
+    for k in 0..=3i64 {
+        for j in 0..=2i64 {
+            for i in 0..=1i64 {
+                for back in [true, false] {
+                    let mut recs = vec![];
+                    let cyc = json!(["txt", [["dnsaddr", 0], sfx_all()]]);
+                    if !back {
+                        recs.push(cyc.clone());
+                    }
+                    for x in 0..k {
+                        recs.push(json!(["txt", [["dns", 10 + x], ["tcp", 1], sfx_all()]]));
+                    }
+                    for x in 0..j {
+                        recs.push(json!(["txt", [["dns4", 20 + x], ["tcp", 1], sfx_all()]]));
+                    }
+                    for x in 0..i {
+                        recs.push(json!(["txt", [["dns6", 30 + x], ["tcp", 1], sfx_all()]]));
+                    }
+                    if back {
+                        recs.push(cyc);
+                    }
+                    v.push(json!({"dial": [["dnsaddr", 0], sfx_all()], "zone": [{"n": 0, "t": "txt", "k": "ans", "recs": recs}], "inner": ["failed"]}));
+                }
+            }
+        }
+    }
+    // TXT entries that are a bare /dnsaddr indirection or a bare address (no suffix at all) behind a dial with a
+    // /p2p suffix: nothing reached through them may be dialed
+    for inner in [json!(["failed"]), json!(["ok"])] {
+        v.push(json!({"dial": [["dnsaddr", 0], sfx_all()], "zone": [
+            {"n": 0, "t": "txt", "k": "ans", "recs": [["txt", [["dnsaddr", 1]]], ["txt", [["dnsaddr", 2], ["p2p", 2]]]]},
+            {"n": 1, "t": "txt", "k": "ans", "recs": [["txt", [["ip4", 1], ["tcp", 1], ["p2p", 2]]], ["txt", [["ip4", 2], ["tcp", 1], sfx_all()]], ["txt", [["ip4", 3], ["tcp", 1]]]]},
+            {"n": 2, "t": "txt", "k": "ans", "recs": [["txt", [["ip4", 4], ["tcp", 1], ["p2p", 2]]], ["txt", [["ip4", 5], ["tcp", 1], sfx_all()]]]}], "inner": inner}));
+        v.push(json!({"dial": [["dnsaddr", 0], ["tcp", 9], sfx_all()], "zone": [
+            {"n": 0, "t": "txt", "k": "ans", "recs": [["txt", [["dns4", 1]]], ["txt", [["dnsaddr", 1]]], ["txt", [["ip4", 7]]]]},
+            {"n": 1, "t": "a", "k": "ans", "recs": [["a", 8]]},
+            {"n": 1, "t": "txt", "k": "ans", "recs": [["txt", [["ip4", 6], ["tcp", 9], sfx_all()]], ["txt", [["ip4", 6], ["tcp", 8], sfx_all()]]]}], "inner": inner}));
+    }
     // several DNS components in one address, no DNS component at all
     v.push(json!({"dial": [["dns4", 0], ["tcp", 1], ["dns6", 1], ["tcp", 2]], "zone": [
         {"n": 0, "t": "a", "k": "ans", "recs": [["a", 1], ["a", 2]]}, {"n": 1, "t": "aaaa", "k": "ans", "recs": [["aaaa", 3], ["aaaa", 4]]}], "inner": ["failed"]}));
     v.push(json!({"dial": [["ip4", 1], ["tcp", 1]], "zone": [], "inner": ["ok"]}));
     v.push(json!({"dial": [["ip4", 1], ["tcp", 1]], "zone": [], "inner": ["refused"]}));
     v
+}
+
+fn sfx_all() -> Value {
+    json!(["p2p", 1])
 }
 
 fn random_sched(rng: &mut impl Rng) -> Value {
@@ -339,6 +394,11 @@ fn random_sched(rng: &mut impl Rng) -> Value {
             let recs: Vec<Value> = (0..cnt)
                 .map(|_| {
                     let tail = if rng.gen_bool(0.8) { sfx.clone() } else { json!(["p2p", 2]) };
+                    if rng.gen_bool(0.06) {
+                        // bare indirection / bare host: no suffix at all
+                        let kind = ["dnsaddr", "dns4", "dns"][rng.gen_range(0..3)];
+                        return json!(["txt", [[kind, rng.gen_range(0..nn)]]]);
+                    }
                     match rng.gen_range(0..10) {
                         0..=3 => json!(["txt", [["dnsaddr", rng.gen_range(0..nn)], tail]]),
                         4..=5 => {
